@@ -3,3 +3,5 @@ import MutagenModel.Model.FileM
 import MutagenModel.Model.FileOps
 import MutagenModel.Proofs.FileOps
 import MutagenModel.Props.C11
+import MutagenModel.Props.C14
+import MutagenModel.Props.C15
